@@ -4,6 +4,7 @@ import json, os
 V = os.path.dirname(os.path.dirname(os.path.abspath(__file__)))
 
 NA = {
+ "C09": "pure function of (object tree, probe point): construction is deterministic and has no schedule, fault, clock, storage or history; comparing OrangeParams membership with analytic membership over generated trees is input generation, not simulation (DESIGN §12.6; plan's 'weak fit' claim withdrawn)",
  "C10": "pure boolean equivalence over all sense assignments of all CSG trees: no schedule, fault, clock or history in the statement (DESIGN §6)",
  "C12": "pure relations between calc_sense/calc_intersections/calc_normal of one immutable surface at one (pos,dir) (DESIGN §6)",
  "C13": "identity in GF(2) linear algebra over 2^160 states and 2^64 counts; no run observes it (DESIGN §6)",
@@ -85,7 +86,7 @@ chk("C19", "exploration",
     "optional comma-decimal global locale) and the differential replay. Each geometry input (bundled file or generated) is written "
     "and read back through it; oracle: field-by-field structural equality (surfaces bitwise, faces, logic, flags, zorder, bboxes, "
     "labels, daughters and transforms, array grids, tolerances) and bit-identical navigation histories of the same client plans on "
-    "OrangeParams(A) and OrangeParams(B).", G_NOTE + " Geometries come from bundled files and the direct generator; the construction API source is added with C09.",
+    "OrangeParams(A) and OrangeParams(B).", G_NOTE + " Geometries come from bundled files (incl. six written by the construction API) and the direct generator.",
     "deterministic simulation: short-read/short-write stream faults + differential replay of navigation", "§5 C19", "G")
 
 I_NOTE = ("Trusted base: the harness, gcc 12 + ASan/UBSan, hand-built model data (no Geant4): Seltzer-Berger tables only for Z=29 and "
